@@ -13,7 +13,8 @@ def Settled (s : NS) : Prop :=
 structure LInv (w : World) (s : NS) : Prop where
   unstarted : s.blk = none → s = NS.init
   blkEmpty : ∀ b, s.blk = some b → b = []
-  unrun : s.unrunnable = true → s.queued = [] ∧ s.running = [] ∧ s.successful = [] ∧ s.errored = []
+  unrun : s.unrunnable = true →
+    s.queued = [] ∧ s.running = [] ∧ s.successful = [] ∧ s.errored = [] ∧ s.cks = []
   cover : s.blk ≠ none → s.unrunnable = false → ∀ i, i < s.cks.length →
     i ∈ s.queued ∨ i ∈ s.running ∨ i ∈ s.successful ∨ i ∈ s.errored
   succOk : ∀ i, i ∈ s.successful → w (s.ckAt i) = .ok
@@ -29,6 +30,9 @@ structure NInv (wf : Wf) (w : World) (ns : NSMap) : Prop where
   /-- a node is marked unrunnable only because of a predecessor with a failed job or an unrunnable predecessor -/
   whyUnrun : ∀ n, (ns.get n).unrunnable = true →
     ∃ p, p ∈ wf.preds n ∧ ((ns.get p).errored ≠ [] ∨ (ns.get p).unrunnable = true)
+  /-- the jobs of a started node are the ones `start()` builds from the values of its predecessors' jobs -/
+  jobsOf : ∀ n, (ns.get n).blk ≠ none → (ns.get n).unrunnable = false →
+    (ns.get n).cks = wf.mkJobs n (inputsOf wf ns n)
 
 theorem linv_init (w : World) : LInv w NS.init := by
   constructor <;> simp [NS.init]
@@ -36,6 +40,7 @@ theorem linv_init (w : World) : LInv w NS.init := by
 theorem ninv_init (wf : Wf) (w : World) : NInv wf w ⟨fun _ => NS.init⟩ := by
   constructor
   · intro n; exact linv_init w
+  · intro n h; simp [NS.init] at h
   · intro n h; simp [NS.init] at h
   · intro n h; simp [NS.init] at h
 
@@ -70,8 +75,8 @@ theorem linv_US {w : World} {s : NS} (hl : LInv w s) (hs : s.started = true) : L
   · intro h; exact absurd h hb
   · intro b h; exact hl.blkEmpty b h
   · intro h
-    obtain ⟨h1, h2, h3, h4⟩ := hl.unrun h
-    refine ⟨?_, ?_, ?_, ?_⟩
+    obtain ⟨h1, h2, h3, h4, h5⟩ := hl.unrun h
+    refine ⟨?_, ?_, ?_, ?_, h5⟩
     · apply List.eq_nil_iff_forall_not_mem.mpr; intro i hi
       rw [mem_US_queued] at hi; rw [h1] at hi; simp at hi
     · apply List.eq_nil_iff_forall_not_mem.mpr; intro i hi
@@ -161,7 +166,8 @@ theorem ninv_setN {wf : Wf} {w : World} {ns : NSMap} (h : NInv wf w ns) (n : Nod
     (hpreds : s'.blk ≠ none → s'.unrunnable = false → ∀ p, p ∈ wf.preds n →
       Settled ((setN ns n s').get p) ∧ ∀ c, c ∈ ((setN ns n s').get p).cks → w c = .ok)
     (hwhy : s'.unrunnable = true → ∃ p, p ∈ wf.preds n ∧
-      (((setN ns n s').get p).errored ≠ [] ∨ ((setN ns n s').get p).unrunnable = true)) :
+      (((setN ns n s').get p).errored ≠ [] ∨ ((setN ns n s').get p).unrunnable = true))
+    (hjobs : s'.blk ≠ none → s'.unrunnable = false → s'.cks = wf.mkJobs n (inputsOf wf (setN ns n s') n)) :
     NInv wf w (setN ns n s') := by
   constructor
   · intro m
@@ -195,11 +201,27 @@ theorem ninv_setN {wf : Wf} {w : World} {ns : NSMap} (h : NInv wf w ns) (n : Nod
         · exact Or.inl (herr h1)
         · exact Or.inr (hunr h1)
       · rw [setN_get_ne _ _ hpn]; exact h1
+  · intro m hb hu
+    by_cases hm : m = n
+    · subst hm
+      rw [setN_get_same] at hb hu ⊢
+      exact hjobs hb hu
+    · rw [setN_get_ne _ _ hm] at hb hu ⊢
+      rw [h.jobsOf m hb hu]
+      congr 1
+      unfold inputsOf
+      apply List.map_congr_left
+      intro p hp
+      by_cases hpn : p = n
+      · subst hpn
+        rw [setN_get_same, hsettled (h.preds m hb hu p hp).1]
+      · rw [setN_get_ne _ _ hpn]
 
 /-- special case: `blk`, `unrunnable` and `cks` of the node do not change -/
 theorem ninv_setN_frame {wf : Wf} {w : World} {ns : NSMap} (h : NInv wf w ns) (n : NodeId) (s' : NS)
     (hl : LInv w s')
     (hb : s'.blk = (ns.get n).blk) (hu : s'.unrunnable = (ns.get n).unrunnable)
+    (hc : s'.cks = (ns.get n).cks)
     (hsettled : Settled (ns.get n) → s' = ns.get n)
     (herr : (ns.get n).errored ≠ [] → s'.errored ≠ []) :
     NInv wf w (setN ns n s') := by
@@ -221,12 +243,23 @@ theorem ninv_setN_frame {wf : Wf} {w : World} {ns : NSMap} (h : NInv wf w ns) (n
       · exact Or.inl (herr a)
       · exact Or.inr (by rw [hu]; exact a)
     · rw [setN_get_ne _ _ hpn]; exact a
+  · intro h1 h2
+    rw [hb] at h1; rw [hu] at h2
+    rw [hc, h.jobsOf n h1 h2]
+    congr 1
+    unfold inputsOf
+    apply List.map_congr_left
+    intro p hp
+    by_cases hpn : p = n
+    · subst hpn
+      rw [setN_get_same, hsettled (h.preds p h1 h2 p hp).1]
+    · rw [setN_get_ne _ _ hpn]
 
 theorem ninv_upd {wf : Wf} {w : World} {ns : NSMap} (h : NInv wf w ns) (n : NodeId) :
     NInv wf w (upd w ns n) := by
   unfold upd
-  obtain ⟨_, f2, f3⟩ := updateStatus_frame w (ns.get n)
-  exact ninv_setN_frame h n _ (linv_updateStatus (h.loc n)) f2 f3
+  obtain ⟨f1, f2, f3⟩ := updateStatus_frame w (ns.get n)
+  exact ninv_setN_frame h n _ (linv_updateStatus (h.loc n)) f2 f3 f1
     (fun hs => updateStatus_of_settled w hs) (errored_ne_nil_updateStatus w _)
 
 /-! ### changing the ground truth -/
@@ -250,6 +283,6 @@ theorem ninv_world {wf : Wf} {w w' : World} {ns : NSMap} (h : NInv wf w ns) (hm 
     NInv wf w' ns :=
   ⟨fun n => linv_world (h.loc n) hm,
    fun n hb hu p hp => ⟨(h.preds n hb hu p hp).1, fun c hc => hm.ok c ((h.preds n hb hu p hp).2 c hc)⟩,
-   h.whyUnrun⟩
+   h.whyUnrun, h.jobsOf⟩
 
 end PydraModel.Sched
